@@ -3,6 +3,7 @@ C06 (early-stopping side) — no early-stopping record is ever left ACTIVE, so n
 `CheckTrialEarlyStoppingState` is ever answered from an abandoned record.  Property theorems only.
 -/
 import VizierModel.Lemmas.ServiceEsIdle
+import VizierModel.Model.Crash
 
 namespace VizierModel.C06
 open VizierModel.Svc
@@ -37,11 +38,73 @@ example : Cfg.fixed.esFailureFinishesOp = true ∧ Cfg.fixed.esAnswerFinishesOp 
 example (h : List Req) : ∀ st ∈ (run Cfg.fixed DB.empty h).studies, EsIdle st :=
   c06_no_active_earlystop_record Cfg.fixed rfl rfl rfl h
 
+/-! ### an abandoned (ACTIVE) record is recomputed -/
+
+/-- the repaired `CheckTrialEarlyStoppingState` treats an ACTIVE record it finds like a stale one: whatever the
+    recycle period, the record is re-opened and the algorithm is consulted -/
+theorem c06_active_record_is_recomputed (cfg : Cfg) (hra : cfg.esResumesActive = true) (st : Study) (id : Nat)
+    (t : Trial) (o : EsOp) (ht : st.findTrial id = some t) (hm : t.state.mutable = true)
+    (ho : esOpOf st id = some o) (hact : o.active = true) (es : EsOutcome) :
+    earlyStopBody cfg st id es = esCompute cfg (st.putEsOp { o with active := true, shouldStop := false }) id es :=
+  earlyStop_active_record_is_recomputed cfg hra st id t o ht hm ho hact es
+
+/-- precisely when the repaired service does NOT answer from the stored record `o` of a mutable trial: the
+    record is ACTIVE (abandoned) or the recycle period is over (`esRecycle`); then the algorithm is consulted.
+    In the one remaining case — a finished, recent record — the stored answer is returned and nothing is written. -/
+theorem c06_stored_answer_returned_iff (cfg : Cfg) (hra : cfg.esResumesActive = true) (st : Study) (id : Nat)
+    (t : Trial) (o : EsOp) (ht : st.findTrial id = some t) (hm : t.state.mutable = true)
+    (ho : esOpOf st id = some o) (es : EsOutcome) :
+    (esReturnsStored cfg o = false ↔ (o.active = true ∨ cfg.esRecycle = true)) ∧
+    (esReturnsStored cfg o = false →
+      earlyStopBody cfg st id es =
+        esCompute cfg (st.putEsOp { o with active := true, shouldStop := false }) id es) ∧
+    (esReturnsStored cfg o = true → o.active = false ∧ cfg.esRecycle = false ∧
+      earlyStopBody cfg st id es = (.earlyStop o.shouldStop, st)) := by
+  refine ⟨esReturnsStored_eq_false_iff cfg hra o, fun hns => earlyStopBody_recomputes cfg st id t o ht hm ho hns es, ?_⟩
+  intro hs
+  have h2 : o.active = false ∧ cfg.esRecycle = false := by
+    unfold esReturnsStored at hs
+    rw [hra] at hs
+    cases ha : o.active <;> cases hr : cfg.esRecycle <;> simp [ha, hr] at hs ⊢
+  refine ⟨h2.1, h2.2, ?_⟩
+  unfold earlyStopBody
+  simp [ht, hm, ho, hs]
+
+/-- **a check after a crash finishes the record**: from ANY study state in which every record other than trial
+    `id`'s reads finished — in particular the state a server that died inside an earlier check of `id` left
+    behind, with `id`'s record ACTIVE — a check of the mutable trial `id` by the repaired service leaves no
+    ACTIVE record at all.  (When the stored answer is NOT returned — record ACTIVE, or `esRecycle`; see
+    `c06_stored_answer_returned_iff` — this is `esCompute` finishing the record; when it is returned the record
+    is a finished one and the state is unchanged, so the conclusion needs no proviso.) -/
+theorem c06_check_after_crash_finishes_record (cfg : Cfg) (hc1 : cfg.esFailureFinishesOp = true)
+    (hc2 : cfg.esAnswerFinishesOp = true) (hra : cfg.esResumesActive = true)
+    (st : Study) (id : Nat) (t : Trial) (ht : st.findTrial id = some t) (hm : t.state.mutable = true)
+    (es : EsOutcome) (h : EsIdleExcept st id) :
+    EsIdle (earlyStopBody cfg st id es).2 :=
+  earlyStopBody_esIdle_of_except cfg hc1 hc2 hra st id t ht hm es h
+
+/-- the same without ANY hypothesis on the state (a crash inside a check can also leave the record of another
+    trial ACTIVE: a decision for a trial without a record is stored as "create ACTIVE, then set DONE"): the
+    check of a mutable trial `id` leaves `id`'s record finished, and every ACTIVE record of another trial seen
+    afterwards was there, unchanged, before — so checking each abandoned trial once clears all of them. -/
+theorem c06_check_finishes_own_record_any_state (cfg : Cfg) (hc1 : cfg.esFailureFinishesOp = true)
+    (hc2 : cfg.esAnswerFinishesOp = true) (hra : cfg.esResumesActive = true)
+    (st : Study) (id : Nat) (t : Trial) (ht : st.findTrial id = some t) (hm : t.state.mutable = true)
+    (es : EsOutcome) :
+    (∀ o, esOpOf (earlyStopBody cfg st id es).2 id = some o → o.active = false) ∧
+    (∀ j x, j ≠ id → esOpOf (earlyStopBody cfg st id es).2 j = some x → x.active = true → esOpOf st j = some x) :=
+  earlyStopBody_finishes_own_opens_none cfg hc1 hc2 hra st id t ht hm es
+
+/-- the hypotheses are satisfiable: the intended configuration, and a study whose only ACTIVE record is the
+    checked trial's -/
+example : Cfg.fixed.esFailureFinishesOp = true ∧ Cfg.fixed.esAnswerFinishesOp = true ∧
+    Cfg.fixed.esResumesActive = true := ⟨rfl, rfl, rfl⟩
+
 /-! ### the code at the pinned commit violates the property (kernel-checked witness) -/
 
 /-- the pinned commit in this respect only: an answer without a decision for the checked trial
-    leaves the record ACTIVE -/
-def legacyAnswer : Cfg := { Cfg.fixed with esAnswerFinishesOp := false }
+    leaves the record ACTIVE, and an ACTIVE record found by a later check is returned, not recomputed -/
+def legacyAnswer : Cfg := { Cfg.fixed with esAnswerFinishesOp := false, esResumesActive := false }
 
 def answersNoStop : Resp → Bool
   | .earlyStop false => true
@@ -81,5 +144,62 @@ theorem c06_fixed_no_decision_recovers :
     answersStop next.1 = true ∧
     next.2.studies.map (·.esOps) = [[{ trialId := 1, active := false, shouldStop := true }]] := by
   decide
+
+/-! ### a record abandoned by a server that died inside the call -/
+
+/-- the pinned commit in this respect only: an ACTIVE record is returned, not recomputed -/
+def legacyResume : Cfg := { Cfg.fixed with esResumesActive := false }
+
+/-- the history up to the first check: one ACTIVE trial (id 1) -/
+def oneActiveTrial : List Req := noDecisionHistory.take 3
+
+/-- what the server that died inside `CheckTrialEarlyStoppingState` of trial 1 left: the record is ACTIVE -/
+def abandonedStudy : Study :=
+  { owner := "o", sid := "s", state := .active, spec := 0, md := [],
+    trials := [{ id := 1, state := .active, client := "w", params := 0, meas := [], final := none, reason := "",
+                 md := [] }],
+    sugOps := [{ client := "w", num := 1, done := true, result := .trials [1] }],
+    esOps := [{ trialId := 1, active := true, shouldStop := false }] }
+
+def abandonedDb : DB := { owners := ["o"], studies := [abandonedStudy], orphans := [] }
+
+/-- `abandonedDb` is what a restarted server finds after a crash inside a check of trial 1 (after the record
+    was opened, before the algorithm's decision was stored) — for either variant — and in it every record
+    other than trial 1's is finished -/
+theorem c06_abandoned_earlystop_record_reachable :
+    let req := Req.checkEarlyStop "o" "s" 1 (.decisions [(1, true)] [])
+    [abandonedStudy] ∈ (crashStates Cfg.fixed (run Cfg.fixed DB.empty oneActiveTrial) req).map (·.studies) ∧
+    [abandonedStudy] ∈ (crashStates legacyResume (run legacyResume DB.empty oneActiveTrial) req).map (·.studies) := by
+  decide
+
+/-- pinned commit: the abandoned ACTIVE record answers the next check of trial 1 — although the algorithm
+    would say "stop" — with `should_stop = False`, and nothing in the database changes: every later check is
+    answered the same way, for ever -/
+theorem c06_abandoned_earlystop_record_wedge :
+    let next := step legacyResume abandonedDb (.checkEarlyStop "o" "s" 1 (.decisions [(1, true)] []))
+    answersNoStop next.1 = true ∧
+    next.2.studies = abandonedDb.studies ∧ next.2.owners = abandonedDb.owners ∧
+    next.2.orphans = abandonedDb.orphans := by
+  decide
+
+/-- the repaired service on the same state: the check reaches the algorithm, its decision is returned and
+    the record is finished -/
+theorem c06_abandoned_earlystop_record_recomputed :
+    let next := step Cfg.fixed abandonedDb (.checkEarlyStop "o" "s" 1 (.decisions [(1, true)] []))
+    answersStop next.1 = true ∧
+    next.2.studies.map (·.esOps) = [[{ trialId := 1, active := false, shouldStop := true }]] ∧
+    next.2.studies.map (·.trials) = abandonedDb.studies.map (·.trials) := by
+  decide
+
+/-- `abandonedStudy` satisfies the hypotheses of `c06_check_after_crash_finishes_record` (non-vacuity) -/
+example : EsIdleExcept abandonedStudy 1 ∧ ¬ EsIdle abandonedStudy ∧
+    (∃ t, abandonedStudy.findTrial 1 = some t ∧ t.state.mutable = true) := by
+  refine ⟨?_, ?_, ⟨_, rfl, rfl⟩⟩
+  · intro j o hj ho
+    have hb : (1 == j) = false := by simpa using fun e : 1 = j => hj e.symm
+    simp [esOpOf, abandonedStudy, hb] at ho
+  · intro h
+    have := h 1 { trialId := 1, active := true, shouldStop := false } rfl
+    simp at this
 
 end VizierModel.C06
